@@ -10,11 +10,42 @@ package main
 //
 //	gate init:after-lastpushcontext   the connection is NOT registered while the snapshot is published
 //	gate init:after-addcon            control: the connection IS registered, the push is queued for it
+//
+// The other side of the same race, the two halves of Push (discovery.go: initPushContext makes the new
+// snapshot global, THEN AdsPushAll -> StartPush enqueues it for the registered connections): Push is
+// parked between / after its halves while a WHOLE connection initialises.
+//
+//	gate push:after-publish           Push has made the snapshot global and not yet enqueued it: the snapshot
+//	                                  must already be the global one (clause push-enqueued-before-published
+//	                                  otherwise); the connection that initialises meanwhile reads it
+//	gate push:after-enqueue           the push round has been enqueued (without the connection): the snapshot
+//	                                  must be global by now, so that the connection initialises from it
+//
+// Cold start ("not serving before the caches are synced"; Stream / StreamDeltas: IsServerReady gate and
+// globalPushContext().InitContext): the fake server is put back into the state of a starting instance -
+// never-initialised global push context (model.NewPushContext(), what Environment starts with), empty
+// xDS cache and, for cold:not-ready, readiness flag cleared - and a proxy connects:
+//
+//	gate cold:not-ready               the stream must be refused with an error, nothing sent and the
+//	                                  context left alone (coldstart-served-before-ready); once marked ready the
+//	                                  proxy is served the complete state (coldstart-served-uninitialised)
+//	gate cold:uninitialised-context   ready, but no push ever initialised the context: the proxy must be served
+//	                                  the same as a proxy of the warm instance (coldstart-served-uninitialised)
 
 import (
+	"bytes"
+	"context"
+	"encoding/json"
+	"fmt"
+	"os"
+	"os/exec"
+	"strings"
 	"sync/atomic"
 	"time"
 
+	"google.golang.org/grpc/status"
+
+	"istio.io/istio/pilot/pkg/model"
 	"istio.io/istio/pilot/pkg/xds"
 	"verifharness/internal/wire"
 )
@@ -35,7 +66,7 @@ func genInitrace(r *wire.Rng) *History {
 		o := old
 		o.Ports = append([]int{}, old.Ports...)
 		// add a port that is not there yet: a new cluster
-		for _, p := range []int{8080, 9090, 80, 443} {
+		for _, p := range []int{8080, 7070, 80, 443, 9090} {
 			has := false
 			for _, q := range o.Ports {
 				if q == p {
@@ -45,6 +76,13 @@ func genInitrace(r *wire.Rng) *History {
 			if !has {
 				o.Ports = append(o.Ports, p)
 				break
+			}
+		}
+		if n := normSE(o); sameOp(n, old) {
+			// the added port did not survive normalisation (a multi-host entry has no TCP port): drop one instead
+			o.Ports = append([]int{}, old.Ports[1:]...)
+			if len(o.Ports) == 0 {
+				o.Ports = []int{7070}
 			}
 		}
 		ops = append(ops, normSE(o))
@@ -59,16 +97,20 @@ func genInitrace(r *wire.Rng) *History {
 		ops = append(ops, genOp(r, w2, &clock))
 	}
 	h.Steps = [][]Op{ops}
-	h.Gate = "init:after-lastpushcontext"
-	if r.Chance(1, 4) {
-		h.Gate = "init:after-addcon"
-	}
+	h.Gate = wire.Pick(r, []string{"init:after-lastpushcontext", "init:after-lastpushcontext", "init:after-lastpushcontext",
+		"init:after-addcon", "push:after-publish", "push:after-enqueue", "push:after-enqueue", "cold:not-ready", "cold:uninitialised-context"})
 	h.Proto = wire.Pick(r, []string{"sotw", "delta"})
 	h.Explicit = r.Chance(1, 2)
 	return h
 }
 
 func runInitrace(h *History, stt *stats) result {
+	switch {
+	case strings.HasPrefix(h.Gate, "push:"):
+		return runPushGate(h, stt)
+	case strings.HasPrefix(h.Gate, "cold:"):
+		return runColdStart(h, stt)
+	}
 	w := h.baseWorld()
 	st := newSite(w, time.Duration(h.Debounce)*time.Millisecond)
 	stt.Servers++
@@ -187,4 +229,279 @@ func runInitrace(h *History, stt *stats) result {
 	}
 	return result{OK: true, Summary: "initrace gate=" + gate + " proto=" + h.Proto + " ops=" + opsShort(h.Steps) +
 		" held=" + itoa(countHeld(e.snapshot(), envoyTypes))}
+}
+
+// waitClientCalm waits until the client is through its initial exchange and has seen no traffic for a
+// while - without looking at the server's counters (Push is parked, so the server is not idle).
+func waitClientCalm(e *envoy) bool {
+	deadline := time.Now().Add(settleTime)
+	for time.Now().Before(deadline) {
+		if e.ready() && e.pending() == 0 && time.Now().UnixNano()-e.lastActivity() > int64(4*calmTime) {
+			return true
+		}
+		time.Sleep(pollEvery)
+	}
+	return false
+}
+
+// compareWithFresh: what the client holds against a client connected now (a difference must persist).
+func compareWithFresh(st *site, h *History, e *envoy, stt *stats) ([]diff, *result) {
+	check := func(label string) ([]diff, *result) {
+		fresh := newEnvoy("fresh", h.Proto == "delta", "app-fresh-"+label)
+		fresh.explicit = h.Explicit
+		fresh.connect(st, connectOpts{})
+		defer fresh.disconnect()
+		if !st.quiesce(e, fresh) {
+			r := timeoutResult("fresh client", map[string]any{"log": fresh.streamLog(), "errors": fresh.errors()})
+			return nil, &r
+		}
+		a, b := e.snapshot(), fresh.snapshot()
+		stt.Comparisons++
+		stt.Compared += countHeld(b, envoyTypes)
+		stt.client(fresh)
+		return compareHeld(a, b, envoyTypes), nil
+	}
+	df, tr := check("1")
+	if tr != nil {
+		return nil, tr
+	}
+	if len(df) > 0 {
+		time.Sleep(patience / 3)
+		df, tr = check("2")
+		if tr != nil {
+			return nil, tr
+		}
+	}
+	return df, nil
+}
+
+// runPushGate parks Push (not the connection) at a gate between / after its two halves, lets a whole
+// connection initialise, releases Push and compares with a client connected afterwards.
+func runPushGate(h *History, stt *stats) result {
+	w := h.baseWorld()
+	st := newSite(w, time.Duration(h.Debounce)*time.Millisecond)
+	stt.Servers++
+	defer st.close()
+	d := st.s.Discovery
+
+	arrived := make(chan struct{}, 1)
+	release := make(chan struct{})
+	var once atomic.Bool
+	gate := h.Gate
+	xds.VerifE2ESetGate(func(point string) {
+		if point == gate && once.CompareAndSwap(false, true) {
+			arrived <- struct{}{}
+			<-release
+		}
+	})
+	released := false
+	defer func() {
+		xds.VerifE2ESetGate(nil)
+		if !released {
+			close(release)
+		}
+	}()
+
+	before := xds.VerifE2EGlobalPushContext(d)
+	for _, o := range h.Steps[0] {
+		if err := st.apply(w, o); err != nil {
+			return result{Clause: "harness-apply-error", Detail: map[string]any{"op": o, "err": err.Error()}}
+		}
+		stt.Ops[o.K]++
+	}
+	select {
+	case <-arrived:
+	case <-time.After(settleTime):
+		return timeoutResult("Push never reached the gate "+gate, nil)
+	}
+	stt.Cuts["gate:"+gate]++
+	// at either gate the snapshot this Push built must already be the global one: a connection that
+	// initialises now is not in the push round (after-enqueue) or may not be (after-publish)
+	publishedAtGate := xds.VerifE2EGlobalPushContext(d) != before
+
+	e := newEnvoy(h.Proto, h.Proto == "delta", "app-"+h.Proto)
+	e.explicit = h.Explicit
+	e.connect(st, connectOpts{})
+	defer e.disconnect()
+	if !waitClientCalm(e) {
+		return timeoutResult("client while Push is parked at "+gate, map[string]any{"log": e.streamLog(), "errors": e.errors()})
+	}
+	registered := len(registeredIDs(st, e))
+
+	xds.VerifE2ESetGate(nil)
+	close(release)
+	released = true
+	if !st.quiesce(e) {
+		return timeoutResult("after releasing Push", map[string]any{"log": e.streamLog(), "errors": e.errors()})
+	}
+	df, tr := compareWithFresh(st, h, e, stt)
+	if tr != nil {
+		return *tr
+	}
+	stt.client(e)
+	if errs := e.errors(); len(errs) > 0 {
+		return result{Clause: "harness-client-error", Detail: map[string]any{"errors": errs}}
+	}
+	if len(df) > 0 {
+		return result{Clause: "init-window-missed-snapshot", Detail: map[string]any{
+			"n": len(df), "diff": limitDiffs(df, 6), "a": "client that initialised while Push was parked at " + gate, "b": "fresh client",
+			"published_at_gate": publishedAtGate, "registered_while_parked": registered, "log": e.streamLog()}}
+	}
+	if !publishedAtGate {
+		return result{Clause: "push-enqueued-before-published", Detail: map[string]any{"gate": gate,
+			"what": "Push reached this point and the push context it built is not the global one yet: connections are (being) handed a snapshot that a connection registering now cannot read"}}
+	}
+	return result{OK: true, Summary: "initrace gate=" + gate + " proto=" + h.Proto + " ops=" + opsShort(h.Steps) +
+		" held=" + itoa(countHeld(e.snapshot(), envoyTypes))}
+}
+
+// runColdStart: a proxy meets an instance that is still starting. A server that serves from a
+// never-initialised push context may dereference nil in one of ITS goroutines, which cannot be recovered
+// here, so the case runs in a child process (`e2e replay initrace <file>`); a crashed child is a verdict.
+func runColdStart(h *History, stt *stats) result {
+	if os.Getenv("E2E_COLD_CHILD") != "" {
+		return runColdStartHere(h, stt)
+	}
+	stt.Servers++
+	stt.Cuts["gate:"+h.Gate]++
+	exe, err := os.Executable()
+	if err != nil {
+		return runColdStartHere(h, stt)
+	}
+	f, err := os.CreateTemp("", "e2e-cold-*.json")
+	if err != nil {
+		return runColdStartHere(h, stt)
+	}
+	defer os.Remove(f.Name())
+	hc := *h
+	hc.Corpus = ""
+	b, _ := json.Marshal(&hc)
+	_, _ = f.Write(append(b, '\n'))
+	f.Close()
+	ctx, cancel := context.WithTimeout(context.Background(), 90*time.Second)
+	defer cancel()
+	cmd := exec.CommandContext(ctx, exe, "replay", "initrace", f.Name())
+	cmd.Env = append(os.Environ(), "E2E_COLD_CHILD=1")
+	var stdout, stderr bytes.Buffer
+	cmd.Stdout, cmd.Stderr = &stdout, &stderr
+	runErr := cmd.Run()
+	for _, l := range strings.Split(stdout.String(), "\n") {
+		switch {
+		case strings.HasPrefix(l, "OK "):
+			stt.Comparisons++
+			return result{OK: true, Summary: strings.TrimPrefix(l, "OK ")}
+		case strings.HasPrefix(l, "FAIL "):
+			p := strings.SplitN(l, " ", 3)
+			d := map[string]any{}
+			if len(p) == 3 {
+				_ = json.Unmarshal([]byte(p[2]), &d)
+			}
+			delete(d, "history")
+			return result{Clause: p[1], Detail: d}
+		}
+	}
+	if ctx.Err() != nil {
+		return timeoutResult("cold-start child process", nil)
+	}
+	// no verdict: the server process died
+	var trace []string
+	for _, l := range strings.Split(stderr.String(), "\n") {
+		if strings.HasPrefix(l, "panic:") || strings.HasPrefix(l, "[signal") || strings.Contains(l, "istio.io/istio/pilot/pkg/") {
+			trace = append(trace, strings.TrimSpace(l))
+		}
+		if len(trace) >= 10 {
+			break
+		}
+	}
+	return result{Clause: "coldstart-served-uninitialised", Detail: map[string]any{
+		"what": "the server process crashed while serving the proxy that connected to the starting instance", "exit": fmt.Sprint(runErr), "trace": trace}}
+}
+
+func runColdStartHere(h *History, stt *stats) result {
+	w := h.baseWorld()
+	// the instance has everything in its caches (including the change of this history)
+	for _, o := range h.Steps[0] {
+		w.note(o)
+	}
+	st := newSite(w, time.Duration(h.Debounce)*time.Millisecond)
+	defer st.close()
+	d := st.s.Discovery
+	delta := h.Proto == "delta"
+
+	// reference: what a proxy of the warm instance holds
+	ref := newEnvoy("warm", delta, "app-"+h.Proto)
+	ref.explicit = h.Explicit
+	ref.connect(st, connectOpts{})
+	if !st.quiesce(ref) {
+		ref.disconnect()
+		return timeoutResult("reference client", map[string]any{"log": ref.streamLog(), "errors": ref.errors()})
+	}
+	want := ref.snapshot()
+	ref.disconnect()
+	stt.client(ref)
+	if !st.quiesce() {
+		return timeoutResult("after the reference client", nil)
+	}
+
+	// back to the state of a starting instance
+	notReady := h.Gate == "cold:not-ready"
+	if notReady {
+		xds.VerifC05SetServerReady(d, false)
+		defer xds.VerifC05SetServerReady(d, true)
+	}
+	cold := model.NewPushContext()
+	st.s.Env().SetPushContext(cold)
+	d.Cache.ClearAll()
+
+	e := newEnvoy(h.Proto, delta, "app-"+h.Proto)
+	e.explicit = h.Explicit
+	if notReady {
+		s := e.connect(st, connectOpts{expectRefusal: true})
+		select {
+		case <-s.done:
+		case <-time.After(2 * time.Second):
+		}
+		e.mu.Lock()
+		var err error
+		returned := false
+		select {
+		case <-s.done:
+			returned, err = true, s.err
+		default:
+		}
+		nresp := s.nResp
+		e.mu.Unlock()
+		initialised := cold.InitDone.Load()
+		// Stream answers codes.Unavailable, StreamDeltas a plain error (codes.Unknown on the wire): either way
+		// the proxy keeps what it has and retries
+		if !returned || err == nil || nresp > 0 || initialised {
+			e.disconnect()
+			code := "stream still open"
+			if returned {
+				code = status.Code(err).String()
+			}
+			return result{Clause: "coldstart-served-before-ready", Detail: map[string]any{"stream_result": code, "responses": nresp,
+				"context_initialised": initialised, "log": e.streamLog()}}
+		}
+		e.disconnect()
+		// caches synced: the instance is marked ready, the proxy retries
+		xds.VerifC05SetServerReady(d, true)
+	}
+	e.connect(st, connectOpts{})
+	defer e.disconnect()
+	ok := st.quiesce(e)
+	errs := e.errors()
+	if !ok && len(errs) == 0 {
+		return timeoutResult("cold client", map[string]any{"log": e.streamLog()})
+	}
+	df := compareHeld(e.snapshot(), want, envoyTypes)
+	stt.Comparisons++
+	stt.Compared += countHeld(want, envoyTypes)
+	stt.client(e)
+	if len(df) > 0 || len(errs) > 0 {
+		return result{Clause: "coldstart-served-uninitialised", Detail: map[string]any{"n": len(df), "diff": limitDiffs(df, 6),
+			"a": "proxy that connected to the starting instance", "b": "proxy of the warm instance", "errors": errs,
+			"context_initialised": cold.InitDone.Load(), "log": e.streamLog()}}
+	}
+	return result{OK: true, Summary: "initrace gate=" + h.Gate + " proto=" + h.Proto + " held=" + itoa(countHeld(e.snapshot(), envoyTypes))}
 }
